@@ -35,14 +35,6 @@ import (
 
 const execChainID = "verif-c12"
 
-var execKeyHex = []string{
-	"b71c71a67e1177ad4e901695e1b4b9ee17ae16c6668d313eac2f96dbcda3f291",
-	"8a1f9a8f95be41cd7ccb6168179afb4504aefe388d1e14474d32c45c72ce7b7a",
-	"49a7b37aa6f6645917e7b807e9d1c00d4fa71f18343b0d4122a4d2df64dd6fee",
-	"3c9229289a6125f7fdf1885a77bb12c37a8d3b4962d936f7e3084dece32a3ca1",
-	"e5d0b0e7b1f3f1b3c1a5d9d7a3b5c7e9f1a3b5c7d9e1f3a5b7c9d1e3f5a7b9c1",
-}
-
 var (
 	execPool        []common.Address      // ascending; index = address index of the reference
 	execPrivs       []types.PrivValidator // aligned with execPool
@@ -50,27 +42,45 @@ var (
 	execGenesisTime = time.Unix(1600000000, 0).UTC()
 )
 
+// initExecPool derives the validator keys deterministically (keccak of a counter) and picks five of
+// them such that the two lowest addresses x < y (byte order) sort the other way round in the real
+// Address.Hex() spelling - they are members 0 and 1 of the equal-power base set, which tie every time.
 func initExecPool() error {
 	type kp struct {
 		k *ecdsa.PrivateKey
 		a common.Address
 	}
 	var ks []kp
-	for _, h := range execKeyHex {
-		k, err := crypto.HexToECDSA(h)
+	for i := 0; len(ks) < 96 && i < 200; i++ {
+		k, err := crypto.ToECDSA(crypto.Keccak256([]byte(fmt.Sprintf("verif-c12-validator-key-%d", i))))
 		if err != nil {
-			return err
+			continue
 		}
 		ks = append(ks, kp{k, crypto.PubkeyToAddress(k.PublicKey)})
 	}
 	sort.Slice(ks, func(i, j int) bool { return bytes.Compare(ks[i].a[:], ks[j].a[:]) < 0 })
+	var pick []kp
+	for i := 0; i < len(ks) && pick == nil; i++ {
+		for j := i + 1; j+3 < len(ks); j++ {
+			if hexDisagree(ks[i].a, ks[j].a) {
+				pick = []kp{ks[i], ks[j], ks[j+1], ks[j+2], ks[j+3]}
+				break
+			}
+		}
+	}
+	if pick == nil {
+		return fmt.Errorf("no key pair whose addresses order differently as bytes and as Hex() strings")
+	}
 	execPool, execPrivs = nil, nil
-	for i, k := range ks {
-		if i > 0 && bytes.Compare(ks[i-1].a[:], k.a[:]) >= 0 {
+	for i, k := range pick {
+		if i > 0 && bytes.Compare(pick[i-1].a[:], k.a[:]) >= 0 {
 			return fmt.Errorf("executor pool not strictly ascending")
 		}
 		execPool = append(execPool, k.a)
 		execPrivs = append(execPrivs, types.NewDefaultPrivValidator(k.k))
+	}
+	if !hexDisagree(execPool[0], execPool[1]) {
+		return fmt.Errorf("executor pool: members 0 and 1 do not disagree")
 	}
 	return nil
 }
